@@ -16,9 +16,11 @@ shutil.copy(os.path.join(src, "patch.diff"), dst)
 if os.path.isdir(os.path.join(src, "demo")):
     shutil.copytree(os.path.join(src, "demo"), os.path.join(dst, "demo"))
 meta = json.load(open(os.path.join(src, "meta.json")))
-meta["confirmed_by_lead"] = ["applied patch.diff in a scratch worktree of /repo HEAD: cargo test --workspace --offline green (221 incl. doc test)",
-                             "demo fails with the patch and passes without it",
-                             "tools/mutenv.sh <env> patch.diff <ids>: isolated copy of /verif against the patched worktree"]
+meta["confirmed_by_lead"] = ["tools/confirm_seed.sh <scratch worktree> <n>: patch.diff applies to the clean worktree of /repo HEAD; "
+                             "cargo test --workspace --offline with the patch: passed=221 failed=0 ignored=1 (identical to the clean tree)",
+                             "demo/run.sh exits non-zero with the patch and 0 without it",
+                             "tools/mutenv.sh <env> patch.diff <ids>: the checks listed in caught_by, run from an isolated copy of /verif "
+                             "against the patched scratch worktree (OKANE_REPO), print VIOLATION and exit 1; on the unpatched tree they exit 0"]
 meta["caught_by"] = [c for c in caught.split(",") if c]
 meta["notes"] = notes
 json.dump(meta, open(os.path.join(dst, "meta.json"), "w"), indent=1)
